@@ -3,6 +3,7 @@ package main
 import (
 	"context"
 	"fmt"
+	"github.com/brimdata/super/zcode"
 	"runtime"
 	"sort"
 	"strings"
@@ -99,7 +100,7 @@ func (l *c08Legs) snapshot() (legs, parts int) {
 }
 
 func runC08(c *rt.Ctx) {
-	c.Note("rule", "case = one generated pool (key k asc/desc, 1–40 small objects from several loads with overlapping, nested, disjoint and identical key ranges, optional null/missing/mixed-type keys) and 6 generated programs (scan, filters, cut/put/drop, sort, head/tail at tie-free boundaries, count/sum/min/max/avg/and/or/collect/union by key, every-style grouping) each run at parallelism 1 (reference) and at 2,3,8,16 under GOMAXPROCS 1,2,16 with repetitions; results compared in the program's mode: exact sequence where the language defines a total order, pool-key order + multiset for ordered scans, multiset (with collect/union normalised) otherwise; evaluations = (program, parallelism, GOMAXPROCS) runs; non-trivial = run in which ≥2 scan legs each received ≥1 partition (counted through the verif hook in the sequence scanner)")
+	c.Note("rule", "case = one generated pool (key k asc/desc, 1–40 small objects — one pool in five: hundreds of values in objects of 30–100 values — from several loads with overlapping, nested, disjoint and identical key ranges, optional null/missing/mixed-type keys) and 6 generated programs (scan, filters, cut/put/drop, sort, head/tail at tie-free boundaries, count/sum/min/max/avg/and/or/collect/union by key, every-style grouping) each run at parallelism 1 (reference) and at 2,3,8,16 under GOMAXPROCS 1,2,16 with repetitions; results compared in the program's mode: exact sequence where the language defines a total order, pool-key order + multiset for ordered scans, multiset (with collect/union normalised) otherwise; evaluations = (program, parallelism, GOMAXPROCS) runs; non-trivial = run in which ≥2 scan legs each received ≥1 partition (counted through the verif hook in the sequence scanner)")
 	c.Note("granularity", "scan-worker interleavings are whatever the Go scheduler produces under GOMAXPROCS 1/2/16 with repetitions; the race detector is on")
 	c.Note("assumptions", "head/tail are only generated after a sort on unique ids or on pools whose keys are unique; float aggregates use small integers so that re-association cannot change a bit")
 	verifhook.SetAtObj(func(point string, obj any, n int) {
@@ -122,6 +123,14 @@ func c08Case(c *rt.Ctx, o *rt.Obs) {
 		Thresh: rt.Pick(r, []int64{1, 30, 80, 300}), Stride: rt.Pick(r, []int{1, 50, 0})}
 	uniqueKeys := r.Chance(1, 3)
 	oddKeys := !uniqueKeys && r.Chance(1, 3)
+	// one pool in five is big: hundreds of values in objects of 30–100 values with
+	// overlapping key ranges, so that merges of three and more legs see batches
+	// that interleave
+	big := r.Chance(1, 5)
+	if big {
+		spec.Thresh = rt.Pick(r, []int64{400, 1500, 4000})
+		o.Count("big_pools", 1)
+	}
 	eng, l, m, err := newMemLake(ctx, false, spec)
 	if err != nil {
 		o.Violation("setup-failed", err.Error())
@@ -133,9 +142,16 @@ func c08Case(c *rt.Ctx, o *rt.Obs) {
 	for i := 0; i < nloads; i++ {
 		var vals []string
 		base := r.Intn(10)
-		for j := 0; j < r.Range(1, 10); j++ {
+		nvals := r.Range(1, 10)
+		if big {
+			nvals = r.Range(40, 120)
+		}
+		for j := 0; j < nvals; j++ {
 			id++
 			k := fmt.Sprint(base + r.Intn(6))
+			if big {
+				k = fmt.Sprint(base + r.Intn(60))
+			}
 			if uniqueKeys {
 				k = fmt.Sprint(id*7%101 + 1000*(id%3))
 			} else if oddKeys {
@@ -159,6 +175,9 @@ func c08Case(c *rt.Ctx, o *rt.Obs) {
 	for i := 0; i < 6; i++ {
 		progs = append(progs, c08Gen(r, uniqueKeys))
 	}
+	if big {
+		progs = append(progs, c08Prog{"from p | sort id", "sequence"}, c08Prog{"from p | sort v, id", "sequence"}, c08Prog{"from p | count() by id | sort id", "sequence"})
+	}
 	desc := map[string]any{"pool": spec, "objects": nobj, "loads": loads, "programs": progs}
 	o.Desc(desc)
 	if o.Index%30 == 0 {
@@ -173,13 +192,25 @@ func c08Case(c *rt.Ctx, o *rt.Obs) {
 			mode = "sequence"
 			seen := map[string]bool{}
 			for _, rec := range ref {
-				if seen[rec.Bytes] {
+				// two groups with the same count and keys that compare equal without
+				// being identical (null / null(int64), 3 / 3.) are a tie as well:
+				// the order is taken as defined only where the counts differ
+				it := zcode.Bytes(rec.Bytes).Iter()
+				it.Next()
+				cnt := ""
+				if !it.Done() {
+					cnt = string(it.Next())
+				}
+				if seen[cnt] {
 					mode = "multiset"
 				}
-				seen[rec.Bytes] = true
+				seen[cnt] = true
 			}
 			if len(ref) == 3 {
-				mode = "multiset" // the head boundary may cut through a tie we cannot see
+				// the head boundary may cut through a tie we cannot see (groups with
+				// the same count whose keys compare equal, e.g. null and null(int64)):
+				// which of the tied groups survives is not defined, their counts are
+				mode = "head-cut"
 			}
 		}
 		for _, par := range []int{2, 3, 8, 16} {
@@ -221,6 +252,22 @@ func c08Compare(mode string, spec lk.PoolSpec, ref, got []gen.Rec) string {
 		return diffRecs(ref, got)
 	case "multiset":
 		return multisetDiff(ref, got)
+	case "head-cut":
+		// rows are {k, count}: compare the multiset of counts only
+		proj := func(recs []gen.Rec) []gen.Rec {
+			out := make([]gen.Rec, len(recs))
+			for i, r := range recs {
+				it := zcode.Bytes(r.Bytes).Iter()
+				it.Next()
+				var cnt zcode.Bytes
+				if !it.Done() {
+					cnt = it.Next()
+				}
+				out[i] = gen.Rec{Type: "count", Bytes: string(cnt)}
+			}
+			return out
+		}
+		return multisetDiff(proj(ref), proj(got))
 	case "agg":
 		return multisetDiff(c08NormAgg(ref), c08NormAgg(got))
 	case "keyorder":
